@@ -101,15 +101,21 @@ template <class T>
 static void canLike(W& w, const char* cls, uint8_t pt, uint32_t fullType, int prior, size_t len, int hv = 0)
 {
     const bool remote = hv & 1, alt = hv & 2;
-    const bool look = prior >= 10;
     const int prior0 = prior;
+    const bool held = prior >= 20;   // the object lives inside a Packet (a base-class copy made by setPayload) and is reached through getPayload()
+    prior %= 20;
+    const bool look = prior >= 10;
     prior %= 10;
     auto hdr = [remote, alt](T& p) {
         p.setId(0x12345678 & 0x1FFFFFFF); p.setIde(!alt); p.setRsvd(alt); p.setFlags(alt ? 0x2800 : 0x0C00); p.setCrcSupport(!alt); p.setErrorPosition(0);
         setRemoteBit(p, remote);
     };
-    T p;
-    hdr(p);
+    T own;
+    hdr(own);
+    A::Packet holder;
+    if (held)
+        holder.setPayload(own);
+    T& p = held ? static_cast<T&>(holder.getPayload()) : own;
     if (prior && prior < 4)
     {
         Bytes pd = pat(priorLen(prior, len, 255), 7);
@@ -164,11 +170,17 @@ static inline void lin(W& w, int prior, size_t len)
 {
     using T = A::LinPayload;
     auto hdr = [](T& p) { p.setLinId(0x2A); p.setParityBits(2); p.setChecksum(0xC3); p.setFlags(0x0100); };
-    const bool look = prior >= 10;
     const int prior0 = prior;
+    const bool held = prior >= 20;   // the object lives inside a Packet (a base-class copy made by setPayload) and is reached through getPayload()
+    prior %= 20;
+    const bool look = prior >= 10;
     prior %= 10;
-    T p;
-    hdr(p);
+    T own;
+    hdr(own);
+    A::Packet holder;
+    if (held)
+        holder.setPayload(own);
+    T& p = held ? static_cast<T&>(holder.getPayload()) : own;
     if (prior && prior < 4)
     {
         Bytes pd = pat(priorLen(prior, len, 255), 7);
@@ -212,11 +224,17 @@ static inline void lin(W& w, int prior, size_t len)
 static inline void eth(W& w, int prior, size_t len)
 {
     using T = A::EthernetPayload;
-    const bool look = prior >= 10;
     const int prior0 = prior;
+    const bool held = prior >= 20;   // the object lives inside a Packet (a base-class copy made by setPayload) and is reached through getPayload()
+    prior %= 20;
+    const bool look = prior >= 10;
     prior %= 10;
-    T p;
-    p.setFlags(0x00C4);
+    T own;
+    own.setFlags(0x00C4);
+    A::Packet holder;
+    if (held)
+        holder.setPayload(own);
+    T& p = held ? static_cast<T&>(holder.getPayload()) : own;
     if (prior && prior < 4)
     {
         Bytes pd = pat(priorLen(prior, len, 65529), 7);
@@ -259,15 +277,21 @@ static inline void eth(W& w, int prior, size_t len)
 
 static inline void analog(W& w, int prior, size_t len, int dt)
 {
-    const bool look = prior >= 10;
     const int prior0 = prior;
+    const bool held = prior >= 20;   // the object lives inside a Packet (a base-class copy made by setPayload) and is reached through getPayload()
+    prior %= 20;
+    const bool look = prior >= 10;
     prior %= 10;
     using T = A::AnalogPayload;
     auto hdr = [dt](T& p) {
         p.setSampleDt(dt ? T::SampleDt::aInt32 : T::SampleDt::aInt16); p.setUnit(T::Unit::volt); p.setSampleInterval(0.25f); p.setSampleOffset(-2.0f); p.setSampleScalar(3.5f);
     };
-    T p;
-    hdr(p);
+    T own;
+    hdr(own);
+    A::Packet holder;
+    if (held)
+        holder.setPayload(own);
+    T& p = held ? static_cast<T&>(holder.getPayload()) : own;
     if (prior)
     {
         Bytes pd = pat(priorLen(prior, len, 65519), 7);
@@ -319,11 +343,17 @@ static inline void cm(W& w, int prior, const size_t slen[4], size_t vlen)
         p.setUptime(0x0102030405060708ull); p.setGmIdentity(0x1112131415161718ull); p.setGmClockQuality(0x21222324); p.setCurrentUtcOffset(0x3132); p.setTimeSource(0x41);
         p.setDomainNumber(0x51); p.setGptpFlags(0x61);
     };
-    const bool look = prior >= 10;
     const int prior0 = prior;
+    const bool held = prior >= 20;   // the object lives inside a Packet (a base-class copy made by setPayload) and is reached through getPayload()
+    prior %= 20;
+    const bool look = prior >= 10;
     prior %= 10;
-    T p;
-    hdr(p);
+    T own;
+    hdr(own);
+    A::Packet holder;
+    if (held)
+        holder.setPayload(own);
+    T& p = held ? static_cast<T&>(holder.getPayload()) : own;
     if (prior == 1)
         p.setData("x", "", "yy", "", {7});
     else if (prior == 2)
@@ -405,11 +435,17 @@ static inline void iface(W& w, int prior, size_t sc, size_t vlen)
         p.setErrorsTotalRx(0x51525354); p.setErrorsTotalTx(0x61626364); p.setInterfaceType(0x71); p.setInterfaceStatus(T::InterfaceStatus::disabled);
         p.setFeatureSupportBitmask(0x81828384);
     };
-    const bool look = prior >= 10;
     const int prior0 = prior;
+    const bool held = prior >= 20;   // the object lives inside a Packet (a base-class copy made by setPayload) and is reached through getPayload()
+    prior %= 20;
+    const bool look = prior >= 10;
     prior %= 10;
-    T p;
-    hdr(p);
+    T own;
+    hdr(own);
+    A::Packet holder;
+    if (held)
+        holder.setPayload(own);
+    T& p = held ? static_cast<T&>(holder.getPayload()) : own;
     if (prior == 4)
     {
         // same total size, the boundary between stream ids and vendor data moved by two
@@ -533,7 +569,7 @@ static int runC13(mc::Run& run, const mc::Options& opt)
         return run.run_single(cs);
     }
     std::vector<std::string> cases;
-    for (int prior : {0, 1, 2, 3, 11, 12, 13})
+    for (int prior : {0, 1, 2, 3, 11, 12, 13, 20, 21, 22, 33})
     {
         for (size_t len = 0; len <= 255; ++len)
         {
@@ -568,7 +604,7 @@ static int runC13(mc::Run& run, const mc::Options& opt)
                                 cases.push_back(ofmt("cls=cm;prior=%d;s=%d,%d,%d,%d;v=%zu", prior, a, b, c, d, v));
     }
     // prior state constructed from a raw image with trailing bytes (kinds 4: same data length as the new data, 5: half of it)
-    for (int prior : {4, 5, 14, 15})
+    for (int prior : {4, 5, 14, 15, 24})
     {
         for (size_t len = 0; len <= 255; ++len)
         {
@@ -582,7 +618,7 @@ static int runC13(mc::Run& run, const mc::Options& opt)
     }
     // capture-module sections at the byte / sign boundaries of the 16-bit length prefix (declared length = characters + NUL,
     // padded to even): one section at a time
-    for (int prior : {0, 1, 2, 3, 11, 12, 13})
+    for (int prior : {0, 1, 2, 3, 11, 12, 13, 20, 32})
         for (int sec = 0; sec < 5; ++sec)
             for (size_t len : {(size_t) 124, (size_t) 125, (size_t) 126, (size_t) 127, (size_t) 128, (size_t) 200, (size_t) 252, (size_t) 253, (size_t) 254, (size_t) 255, (size_t) 256,
                                (size_t) 382, (size_t) 383, (size_t) 384, (size_t) 32766, (size_t) 32767, (size_t) 32768})
